@@ -23,7 +23,7 @@ ASSUMPTIONS = ['Model/RelaxCon.v composes hand-written models; tied by correspon
                'the order of the folded constraint list (a Python set) is unspecified: compared as a multiset, and the implementation\'s '
                'order is passed to the Lagrangian model']
 HEADER = ('From Coq Require Import List Bool Arith ZArith QArith.\n'
-          'From SageVerif Require Import Model.Expr Model.Signomial Model.SymSig Model.RelaxSig Model.RelaxCon Base.Corr.\nImport ListNotations.\n'
+          'From SageVerif Require Import Model.Expr Model.Signomial Model.SolverForms Model.SymSig Model.SymCorr Model.RelaxSig Model.RelaxCon Base.Corr.\nImport ListNotations.\n'
           'Definition ssig_eqb2 (f g : option ssig) : bool := ssig_eqb f g.\n'
           'Definition model (x : nat * qsig * list qsig * list qsig * nat * list (qsig * list Z) * list (qsig * list Z)) :=\n'
           "  let '(n, f, gts0, eqs0, p, gts, eqs) := x in\n"
@@ -31,6 +31,20 @@ HEADER = ('From Coq Require Import List Bool Arith ZArith QArith.\n'
           '  let E := hierarchy_e_k n (map fst L0 :: map (map fst) (gts0 ++ eqs0)) p in\n'
           '  (E, make_sig_lagrangian n f 0%Z E gts eqs).\n'
           'Definition out_eqb := pair_eqb (list_eqb qrow_eqb) ssig_eqb2.\n'
+          '(* dual form (ell = 0): normalisation vector, objective vector and the moment-reduction arrays of all multipliers,\n'
+          '   computed by the model functions of C16 on the basis of the Lagrangian *)\n'
+          'Definition mra (n : nat) (L : qsig) (sg : list qrow * qsig) : option (list (list Q)) :=\n'
+          '  match moment_reduction_array true n (map (fun r => (r, 1%Q)) (fst sg)) (q_mul n (snd sg) [(repeat 0%Q n, 1%Q)]) L with\n'
+          '  | Ok C => Some C | Err _ => None end.\n'
+          'Definition model_cdual (x : nat * qsig * list qrow * list (list qrow * qsig) * list (list qrow * qsig)) :=\n'
+          "  let '(n, f, Lrows, gms, hms) := x in\n"
+          '  let L := map (fun r => (r, 1%Q)) Lrows in\n'
+          '  (relative_coeff_vector [(repeat 0%Q n, 1%Q)] Lrows, relative_coeff_vector (q_mul n f [(repeat 0%Q n, 1%Q)]) Lrows,\n'
+          '   map (mra n L) gms, map (mra n L) hms).\n'
+          'Definition lq_eqb := list_eqb Qeq_bool.\n'
+          'Definition cdual_eqb (a b : list Q * list Q * list (option (list (list Q))) * list (option (list (list Q)))) : bool :=\n'
+          "  let '(a1, o1, g1, h1) := a in let '(a2, o2, g2, h2) := b in\n"
+          '  lq_eqb a1 a2 && lq_eqb o1 o2 && list_eqb (option_eqb (list_eqb lq_eqb)) g1 g2 && list_eqb (option_eqb (list_eqb lq_eqb)) h1 h2.\n'
           '(* multiset equality of folded constraint lists *)\n'
           'Definition sub_ms (a b : list qsig) : bool := forallb (fun g => Nat.eqb (length (filter (q_eqb g) a)) (length (filter (q_eqb g) b))) a.\n'
           'Definition fold_eqb (a b : list qsig) : bool := Nat.eqb (length a) (length b) && sub_ms a b && sub_ms b a.')
@@ -78,10 +92,72 @@ def canon_L(L, idmap):
     return rows
 
 
+def grid_rows(alpha):
+    return [[Fraction(int(round(x * c12.GRID)), c12.GRID) for x in r] for r in np.asarray(alpha, dtype=float).tolist()]
+
+
+def dual_case(fo, go, ho, p, q, n):
+    """build the dual form (ell = 0) and read off a, obj and every multiplier's array as matrices over the components of v;
+    the (multiplier, constraint) pairs are captured from make_sig_lagrangian as sig_constrained_dual itself receives them"""
+    from sageopt.relaxations import sage_sigs as ss
+    import sageopt.coniclifts as cl
+    captured = {}
+    orig = ss.make_sig_lagrangian
+
+    def spy(*a, **k):
+        out = orig(*a, **k)
+        captured['out'] = out
+        return out
+    ss.make_sig_lagrangian = spy
+    try:
+        with warnings.catch_warnings():
+            warnings.simplefilter('ignore')
+            prob = ss.sig_constrained_dual(fo, go, ho, p, q, 0)
+    finally:
+        ss.make_sig_lagrangian = orig
+    L, ineq, eqm, _ = captured['out']
+    v = [u for u in prob.all_variables if u.name == 'v'][0]
+    vids = [int(i) for i in np.asarray(v.scalar_variable_ids).ravel().tolist()]
+
+    def row_of(se):
+        amap = {}
+        for at, co in se.atoms_to_coeffs.items():
+            amap[int(at.id)] = amap.get(int(at.id), Fraction(0)) + Fraction(float(co))
+        if any(i not in vids for i in amap):
+            raise ValueError('a dual-form row mentions a variable other than v')
+        return [amap.get(i, Fraction(0)) for i in vids], Fraction(float(se.offset))
+    cons = prob.constraints
+    if len(cons) != 2 + len(ineq) + len(eqm):
+        raise ValueError('unexpected number of constraints in the dual problem: %d' % len(cons))
+    gm, hm = [], []
+    for k, (s_h, h) in enumerate(ineq):
+        con = cons[1 + k]
+        rows = [row_of(se) for se in cl.Expression(con.v).flat]
+        if any(off != 0 for _, off in rows) or grid_rows(con.alpha) != grid_rows(s_h.alpha):
+            raise ValueError('multiplier cone %d is not the cone of c_h @ v over the multiplier\'s exponents' % k)
+        gm.append(((grid_rows(s_h.alpha), c12.canon(h)), vlib.Some([r for r, _ in rows])))
+    for k, (z_h, h) in enumerate(eqm):
+        con = cons[1 + len(ineq) + k]
+        rows = [row_of(se) for se in con.expr.flat]
+        sign = -1 if con.operator == '<=' else 1
+        if con.operator != '==' or any(off != 0 for _, off in rows):
+            raise ValueError('equality multiplier %d is not stated as c_h @ v == 0' % k)
+        hm.append(((grid_rows(z_h.alpha), c12.canon(h)), vlib.Some([r for r, _ in rows])))
+    arow, aoff = row_of(list(cons[-1].expr.flat)[0])
+    if cons[-1].operator != '==' or aoff not in (Fraction(-1), Fraction(1)):
+        raise ValueError('normalisation constraint is not a.v == 1')
+    a = [(-x if aoff == 1 else x) for x in arow]          # a.v - 1 == 0  or  1 - a.v == 0
+    vm = prob.variable_map[v.name].ravel().tolist()
+    obj = [Fraction(float(prob.c[col])) if col >= 0 else Fraction(0) for col in vm]
+    cin = cq((Nat(n), c12.canon(fo), grid_rows(L.alpha), [g for g, _ in gm], [h for h, _ in hm]))
+    cout = cq((a, obj, [c for _, c in gm], [c for _, c in hm]))
+    return cin, cout, {'L_rows': int(L.m), 'ineq': len(ineq), 'eq': len(eqm)}
+
+
 def run(ctx):
     from sageopt.relaxations import sage_sigs as ss
     from sageopt.relaxations import constraint_generators as cg
-    cases, folds = [], []
+    cases, folds, duals = [], [], []
     for k in range(ctx.n(120, 1200)):
         n, f, gts, eqs, p, q = build(ctx.rng)
         fo = c03.sig_obj(f, n)
@@ -120,6 +196,15 @@ def run(ctx):
         cin = cq((Nat(n), c12.canon(fo), [c12.canon(g) for g in go], [c12.canon(h) for h in ho], Nat(p), gl, hl))
         cases.append((js, cin, '(%s, Some %s)' % (cq(E), c13.rows_coq(Lrows))))
         folds.append((js, cq((Nat(n), [c12.canon(g) for g in go], Nat(q))), cq([c12.canon(g) for g, in [(x[1],) for x in ineq]])))
+        if k % 2 == 0 and L.m <= 40:
+            try:
+                dcin, dcout, dmeta = dual_case(fo, go, ho, p, q, n)
+                duals.append((dict(js, **dmeta), dcin, dcout))
+                ctx.count('dual_form_multipliers', dmeta['ineq'] + dmeta['eq'])
+            except ValueError as e:
+                ctx.problem('correspondence', 'dual form of the constrained relaxation: %s' % e, inputs=js, failing_input_found=False)
+            except Exception as e:
+                ctx.count('dual_builder_error', type(e).__name__)
         # oracle: Lagrangian identity with exact rationals
         why = oracle_identity(ctx.rng, n, fo, ineq, eqm, Lrows, idmap)
         if why:
@@ -133,7 +218,10 @@ def run(ctx):
                 break
     T_in = 'nat * qsig * list qsig * list qsig * nat * list (qsig * list Z) * list (qsig * list Z)'
     for name, cs, model, eqb, tin, tout in (('lagrangian', cases, 'model', 'out_eqb', T_in, 'list qrow * option ssig'),
-                                            ('q_fold', folds, "fun x => let '(n, gs, q) := x in q_fold n gs q", 'fold_eqb', 'nat * list qsig * nat', 'list qsig')):
+                                            ('q_fold', folds, "fun x => let '(n, gs, q) := x in q_fold n gs q", 'fold_eqb', 'nat * list qsig * nat', 'list qsig'),
+                                            ('constrained_dual', duals, 'model_cdual', 'cdual_eqb',
+                                             'nat * qsig * list qrow * list (list qrow * qsig) * list (list qrow * qsig)',
+                                             'list Q * list Q * list (option (list (list Q))) * list (option (list (list Q)))')):
         ctx.evaluations += len(cs)
         mism, err = vlib.run_suite_in_coq(ctx.pid, name, HEADER, model, eqb, tin, tout, [(c[1], c[2]) for c in cs], shard=60)
         ctx.suites[name] = {'cases': len(cs), 'mismatches': None if mism is None else len(mism)}
